@@ -220,6 +220,17 @@ def lib_any_all(which):
     return f
 
 
+def lib_abs(e, st, a, kw, n):
+    x = a[0]
+    if isinstance(x, VNum):
+        v = x.e if x.is_int else x.real()
+        r = VNum(z3.If(v >= 0, v, -v))
+        return r
+    if isinstance(x, VSeq):
+        return VSeq(FnArr(lambda k_: z3.If(x.arr[k_] >= 0, x.arr[k_], -x.arr[k_])), x.len)
+    raise Unsupported("abs of " + type(x).__name__)
+
+
 def lib_min_max(which):
     def f(e, st, a, kw, n):
         items = list(a[0].items) if len(a) == 1 and isinstance(a[0], VTuple) else list(a)
@@ -236,7 +247,7 @@ def lib_min_max(which):
 def install(eng):
     eng.lib.update({"any": lib_any_all("any"), "all": lib_any_all("all"), "min": lib_min_max("min"), "max": lib_min_max("max")})
     eng.lib.update({
-        "len": lib_len, "partial": lambda e, st, a, kw, node: VPartial(a[0], a[1:], kw), "getattr": lib_getattr, "isinstance": lib_isinstance, "dict": lib_dict, "list": lib_list, "np.asarray": lib_asarray, "np.array": lib_asarray,
+        "len": lib_len, "abs": lib_abs, "partial": lambda e, st, a, kw, node: VPartial(a[0], a[1:], kw), "getattr": lib_getattr, "isinstance": lib_isinstance, "dict": lib_dict, "list": lib_list, "np.asarray": lib_asarray, "np.array": lib_asarray,
         "float": lib_float, "set": lib_set, "zip": lib_zip, "enumerate": lib_enumerate, "range": lib_range, "np.ones_like": lib_np_ones_like, "np.isscalar": lib_np_isscalar,
         "np.diff": lib_np_diff, "np.all": lib_np_all, "np.any": lib_np_any,
         "np.sort": lib_np_sort, "np.zeros": lib_np_zeros, "np.zeros_like": lib_np_zeros_like,
